@@ -284,6 +284,11 @@ def rule_r3(ctx):
                 seen.add(key)
                 rr.instances += 1
                 over = e.path
+                if re.search(r"\.split\('.'\)", str(over)):
+                    # one level per COMPONENT of one dotted name: the source's own `a.b.c` is as deep,
+                    # the depth is bounded by the length of an identifier, not by a user list
+                    rr.ok(f"nest|{_over_key(over)}", sample={"rule": "C17-R3", "nest_over": str(over), "verdict": "components of one dotted name"})
+                    continue
                 rr.fail(
                     f"C17-R3|{origin.split('.')[0].split(':')[-1]}|nest-over|{_over_key(over)}",
                     f"{origin} ({e.site}): the template wraps its accumulator once per element of {over}: the depth of the output tree grows linearly with the length of that list (a block of N statements / N decorators becomes N nested calls)",
